@@ -459,19 +459,36 @@ func genBCase(t *rapid.T) BCase {
 		}
 		c.Reps = genReps(t, true, c.L)
 		if ood && !c.Nil {
-			switch rapid.IntRange(0, 1).Draw(t, "oodkind") {
-			case 0:
-				c.OOD = "neg-padding"
-				c.Layout = append(c.Layout, Item{T: "z", Len: -rapid.IntRange(1, 5).Draw(t, "negpad")})
-			case 1:
-				// a layout that does not tile its slice: one explicit length reaches past the data
-				c.OOD = "non-tiling"
+			c.OOD = "neg-padding"
+			c.Layout = append(c.Layout, Item{T: "z", Len: -rapid.IntRange(1, 5).Draw(t, "negpad")})
+		} else if !c.Nil && rapid.IntRange(0, 5).Draw(t, "mismatch") == 0 {
+			// A layout that was written for another slice than the one it meets (a retransmission or a
+			// PTO probe hands in only the unacknowledged part; the ClientHello changed length). Where it
+			// does not fit the data the builder must still be truthful and complete (or refuse); where
+			// it fits but leaves bytes out, the case is outside the property's domain (see checkB).
+			switch rapid.IntRange(0, 2).Draw(t, "mismatchkind") {
+			case 0: // one explicit length reaches past the data
 				for i := range c.Layout {
 					if c.Layout[i].T == "c" {
-						c.Layout[i].Len += rapid.IntRange(1, 9).Draw(t, "overhang") + c.L
+						c.Layout[i].Len += rapid.IntRange(1, 9).Draw(t, "overhang") + rapid.SampledFrom([]int{0, 0, c.L}).Draw(t, "overhang-l")
 						break
 					}
 				}
+			default: // the layout tiles slices of other lengths
+				alt := make([]int, len(c.Slices))
+				for i, sl := range c.Slices {
+					switch rapid.IntRange(0, 3).Draw(t, "altkind") {
+					case 0:
+						alt[i] = max(0, sl-rapid.IntRange(1, 40).Draw(t, "shorter"))
+					case 1:
+						alt[i] = sl + rapid.IntRange(1, 40).Draw(t, "longer")
+					case 2:
+						alt[i] = sl * 2
+					default:
+						alt[i] = rapid.IntRange(0, 2400).Draw(t, "altlen")
+					}
+				}
+				c.Layout = genTilingLayout(t, alt)
 			}
 		}
 	case "passthrough":
@@ -707,6 +724,37 @@ func guardFlight(f func() ([][]byte, error)) (o outcome) {
 
 var kindArea = map[string]string{"frames": "frames", "passthrough": "frames", "random": "random", "multi": "multi", "flight": "flight", "randflight": "randflight"}
 
+// layoutExpect reads a QUICFrames layout against a slice of n bytes the way the QUICFrameCrypto
+// doc comment describes it (Offset relative to the lowest CRYPTO offset of the layout, Length 0 =
+// to the end of the data). fits is false when some CRYPTO entry does not lie inside the data.
+func layoutExpect(items []Item, n int) (fits bool, cover []span) {
+	lowest := math.MaxInt
+	for _, it := range items {
+		if it.T == "c" && it.Off < lowest {
+			lowest = it.Off
+		}
+	}
+	var sp []span
+	for _, it := range items {
+		if it.T != "c" {
+			continue
+		}
+		rel := it.Off - lowest
+		l := it.Len
+		if rel < 0 || rel > n || l < 0 {
+			return false, nil
+		}
+		if l == 0 {
+			l = n - rel
+		}
+		if l > n-rel {
+			return false, nil
+		}
+		sp = append(sp, span{rel, rel + l})
+	}
+	return true, normalise(sp)
+}
+
 // checkB decides one builder case.
 func checkB(c BCase, u *vf.Unit) *vf.Verdict {
 	if c.L < 0 || c.L > 1<<20 || c.Reps < 1 {
@@ -743,6 +791,11 @@ func checkB(c BCase, u *vf.Unit) *vf.Verdict {
 		}
 		var bex quic.QUICFrameBuilderEx
 		mustSucceed := make([]bool, len(c.Slices))
+		wants := make([][]span, len(c.Slices))
+		underCover := make([]bool, len(c.Slices))
+		for i, sl := range c.Slices {
+			wants[i] = whole(sl)
+		}
 		switch c.Kind {
 		case "frames", "passthrough":
 			if c.Nil {
@@ -750,8 +803,24 @@ func checkB(c BCase, u *vf.Unit) *vf.Verdict {
 			} else {
 				bex = mkFrames(c.Layout)
 			}
-			for i := range mustSucceed {
-				mustSucceed[i] = true // the generator only emits tiling layouts
+			for i, sl := range c.Slices {
+				wants[i] = whole(sl)
+				if c.Nil {
+					mustSucceed[i] = true
+					continue
+				}
+				fits, cover := layoutExpect(c.Layout, sl)
+				switch {
+				case !fits:
+					// error, or truthful and complete: never a panic, a zero extension or a truncation
+				case sameSpans(cover, whole(sl)):
+					mustSucceed[i] = true // a layout that tiles its slice
+				default:
+					// fits but leaves bytes of the slice out: not a tiling layout, outside the property's
+					// domain (DESIGN.md section 7 item 10); only the per-frame truth is judged, the outcome is labelled
+					wants[i] = nil
+					underCover[i] = true
+				}
 			}
 		case "random":
 			if len(c.RFs) != 1 {
@@ -811,14 +880,25 @@ func checkB(c BCase, u *vf.Unit) *vf.Verdict {
 					if mustSucceed[i] {
 						return vf.Bad("C09/"+area+"/valid-config-rejected", "datagram %d (slice of %d bytes at absolute offset %d): in-range configuration rejected: %v", i, sl, base, out.err)
 					}
+					if underCover[i] && rep == 0 {
+						u.Class("ood:under-covering-layout:error")
+					}
 					continue
 				}
 				nOK++
 				// Nothing validates a per-datagram payload after the builder, and nobody else sends the
 				// slice's bytes (QUICFrameBuilderEx doc): every successful result must cover the slice.
-				if v := checkPayload(area, out.payload, slice, base, whole(sl), &o); v != nil {
+				if v := checkPayload(area, out.payload, slice, base, wants[i], &o); v != nil {
 					v.Detail = fmt.Sprintf("datagram %d (slice of %d bytes at absolute offset %d), draw %d: %s", i, sl, base, rep, v.Detail)
 					return v
+				}
+				if underCover[i] && rep == 0 {
+					var scratch obs
+					if checkPayload(area, out.payload, slice, base, whole(sl), &scratch) != nil {
+						u.Class("ood:under-covering-layout:truncated")
+					} else {
+						u.Class("ood:under-covering-layout:complete")
+					}
 				}
 			}
 		}
@@ -995,6 +1075,17 @@ func checkB(c BCase, u *vf.Unit) *vf.Verdict {
 	if c.Base != 0 {
 		u.Class("base!=0")
 	}
+	if c.Kind == "frames" && !c.Nil {
+		misfit := false
+		for _, sl := range c.Slices {
+			if fits, _ := layoutExpect(c.Layout, sl); !fits {
+				misfit = true
+			}
+		}
+		if misfit {
+			u.Class("frames:layout-does-not-fit")
+		}
+	}
 	if c.Reps >= 1024 {
 		u.Class("reps>=1024")
 	}
@@ -1020,7 +1111,7 @@ func checkOOD(c BCase, data []byte, u *vf.Unit) *vf.Verdict {
 	var v *vf.Verdict
 	var o obs
 	switch c.OOD {
-	case "neg-padding", "non-tiling":
+	case "neg-padding":
 		if len(c.Slices) == 0 || c.Slices[0] > len(data) || c.Slices[0] < 0 {
 			return nil
 		}
